@@ -79,6 +79,27 @@ NEEDS = {
     "C01-lnsrch-restart-task-never-cleared": "line-search failure, reboot, >= 1 successful iteration, then another failure far from the solution",
     "C01-freeset-selectors-reused-on-equal-count": "between two iterations one variable reaches a bound while another leaves one (same count)",
     "C01-cauchy-unbounded-breakpoints-dropped": "a variable on a one-sided bound with the gradient pushing inward and no finite breakpoint",
+    # ---- round 4 (two more per property for ten properties, written against HEAD 544eae1)
+    "C04-restart-target-returns-checkpoint": "run stopped by anything but the target, then a restart whose ftarget is already met, under budgets that make the old reason false",
+    "C04-ftarget-ulp-slack": "an ftarget within 4 ulps below a value the run actually reaches",
+    "C05-sf-no-defensive-copy": "an objective that works in place on the array it receives",
+    "C05-restart-njev-restored-late": "run, restart with ftarget already satisfied (early return), then a further restart",
+    "C06-restore-slice-negative-start": "split while the memory is between half full and full (maxcor/2 < pairs < maxcor)",
+    "C06-nit-restored-only-with-history": "split exactly at an iteration whose line search failed (checkpoint with nit > 0 and no pair)",
+    "C07-restore-drops-memory-on-status2": "restart from a CALLBACK state (status 2 while running), not from a returned result",
+    "C07-cb-state-x-from-history": "an iteration whose curvature pair is rejected (non-convex objective in a box) with a callback",
+    "C09-subsm-truncation-skips-one-sided-bounds": "one-sided bound that is the blocking one for the subspace Newton step",
+    "C09-formk-offdiag-block-inplace-on-mats": ">= 1 stored pair, then a skipped update, then another iteration with free variables",
+    "C10-theta-from-candidate-on-forced-rebuild": "rejected candidate together with a forced rebuild (update function or restart; raised eps_SY)",
+    "C10-rejected-step-reanchors-memory": ">= 1 accepted pair followed by a rejected one",
+    "C13-skip-recheck-on-same-deque": "update function rewriting the gradients in place and returning the same deque, with a pair losing its curvature",
+    "C13-force-rebuild-only-when-trimmed": "objective switch where every stored pair keeps positive curvature but the newest step is rejected",
+    "C14-shared-dcsrch-driver": "a second optimisation with equal line-search tolerances nested/interleaved inside a line search",
+    "C14-restart-early-exit-updates-checkpoint": "checkpoint given and ftarget already met by it (early return)",
+    "C18-wolfe-filter-vectorised": "update function rewriting gradients: a pair fails and the merged pair across the dropped point has s.y <= 0",
+    "C18-diag-skip-uninformed-vars": "a variable whose yk column is all zero while its sk column is not (objective linear in that variable)",
+    "C20-stopcrit-genexpr-resolution": "a callable ftarget/gtol raising StopIteration",
+    "C20-linesearch-workspace-lock": "user fault inside a line search (call #1 or later), then a fault-free rerun in the same process",
 }
 
 
